@@ -123,6 +123,7 @@ CLAIMS['C15']['text'] += " Also: Writer<std::string>::write sends every byte to 
 CLAIMS['C16']['text'] += ' Recovery clause stated separately (enc.rotate_output.fd.recover): rotation to an output that can be opened must succeed whatever the old output does - known finding (the stale staging buffer is flushed to the old output first).'
 CLAIMS['C05']['text'] += " CdnsReader's constructor reads the file header unconditionally and lets every decoder error propagate (rdr.ctor)."
 CLAIMS['C11']['text'] += ' IndexListItem: vector equality / data() as content identity (bt.eqhash.IndexListItem).'
+CLAIMS['C01']['note'] += " The three byte-window decoder units (dec.read_to_buffer, dec.read_int, dec.read_string) are part of this chain but run in C01's thorough tier only; every quick run of C05/C07/C03 decides them."
 NA.update({
  'C18': "property of five main() bodies (getopt, iostream, several files): no function-level contract within reach states it (DESIGN section 8)",
 })
